@@ -199,7 +199,8 @@ func (r *objectSetPhasesReconciler) reconcile(
 	}
 
 	var controllerOfAll []corev1alpha1.ControlledObjectReference
-	for _, phase := range objectSet.GetPhases() {
+	phases := objectSet.GetPhases()
+	for i, phase := range phases {
 		controllerOf, probingResult, err := r.reconcilePhase(
 			ctx, objectSet, phase, probe, previous)
 		if err != nil {
@@ -211,11 +212,46 @@ func (r *objectSetPhasesReconciler) reconcile(
 
 		if !probingResult.IsZero() {
 			// break on first failing probe
+			if objectSet.IsSpecPaused() {
+				// The phases after this one are not looked at in this pass, but a paused ObjectSet
+				// has to stop the controllers of the remaining delegated phases as well.
+				if err := r.pauseRemotePhases(ctx, objectSet, phases[i+1:]); err != nil {
+					return nil, controllers.ProbingResult{}, err
+				}
+			}
 			return controllerOfAll, probingResult, nil
 		}
 	}
 
 	return controllerOfAll, controllers.ProbingResult{}, nil
+}
+
+// remotePhasePauser is implemented by remote phase reconcilers that can hand the pause
+// state of the ObjectSet to an already existing ObjectSetPhase without reconciling the phase.
+type remotePhasePauser interface {
+	SyncPaused(
+		ctx context.Context, objectSet adapters.ObjectSetAccessor,
+		phase corev1alpha1.ObjectSetTemplatePhase,
+	) error
+}
+
+func (r *objectSetPhasesReconciler) pauseRemotePhases(
+	ctx context.Context, objectSet adapters.ObjectSetAccessor,
+	phases []corev1alpha1.ObjectSetTemplatePhase,
+) error {
+	pauser, ok := r.remotePhase.(remotePhasePauser)
+	if !ok {
+		return nil
+	}
+	for _, phase := range phases {
+		if len(phase.Class) == 0 {
+			continue
+		}
+		if err := pauser.SyncPaused(ctx, objectSet, phase); err != nil {
+			return err
+		}
+	}
+	return nil
 }
 
 func (r *objectSetPhasesReconciler) reconcilePhase(
